@@ -84,7 +84,7 @@ def collect(v, tier, rnd, h, d, prop):
         common.write_ndjson(req, [{"db": path, "mode": "keep", "ops": [{"op": "schema", "table": a["name"], "id": k} for k, (a, _, _, _) in enumerate(rows)]}])
         rc, txt, _ = common.run([h, "ops", req, out], timeout=600)
         if rc != 0:
-            raise Infra("harness ops failed: " + txt[-2000:])
+            raise common.harness_failure(txt)
         res = {r["id"]: r for r in common.read_ndjson(out)}
         creq = []
         for k, (a, sq, stored, istored) in enumerate(rows):
@@ -95,7 +95,7 @@ def collect(v, tier, rnd, h, d, prop):
         common.write_ndjson(cin, creq)
         rc, txt, _ = common.run([h, "calls", cin, cout], timeout=600)
         if rc != 0:
-            raise Infra("harness calls failed: " + txt[-2000:])
+            raise common.harness_failure(txt, "harness calls")
         cres = common.read_ndjson(cout)
         ci = 0
         for k, (a, sq, stored, istored) in enumerate(rows):
